@@ -186,3 +186,16 @@ Proof.
   - destruct ds; simpl; auto.
   - destruct (IH _ _ _ _ _ i r0 E ltac:(lia)) as [H1 H2]. fold (tl ds) in H1, H2. rewrite nth_tl in H1, H2. auto.
 Qed.
+
+(** two histories of a farmer with the same exact share (e.g. differing only in extra harvests), both ending
+    fully withdrawn, pay amounts that differ by less than the number of interactions *)
+Lemma harvest_frequency_lemma es1 es2 :
+  fvalid 0 es1 -> fvalid 0 es2 ->
+  let x1 := fold_left fstep es1 fzero in
+  let x2 := fold_left fstep es2 fzero in
+  a_l x1 = 0 -> a_l x2 = 0 -> a_fair x1 = a_fair x2 ->
+  - (a_n x1 * (P18 - 1)) <= (a_paid x1 - a_paid x2) * P18 <= a_n x2 * (P18 - 1).
+Proof.
+  intros H1 H2 x1 x2 Hz1 Hz2 Hf. destruct (payout_lemma es1 H1) as [Ha1 Hb1]. destruct (payout_lemma es2 H2) as [Ha2 Hb2].
+  fold x1 in Ha1, Hb1. fold x2 in Ha2, Hb2. specialize (Hb1 Hz1). specialize (Hb2 Hz2). lia.
+Qed.
